@@ -154,3 +154,155 @@ spec fn rule_type_at(r: TransitionRule, u: int) -> Option<LocalTimeType> {
         TransitionRule::Alternate(a) => if alt_u_ok(u) { Some(if in_dst(a, u) { a.dst } else { a.std }) } else { None },
     }
 }
+
+// ---- C11: order stability of two yearly instants --------------------------------------------------
+
+// instant of rule day d in year y at UTC day time t
+spec fn rd_instant(d: RuleDay, t: int, y: int) -> int {
+    rule_daynum(d, y) * 86400 + t
+}
+
+// the three relations of C11 for two yearly instants I1, I2 (I1 = start, I2 = end)
+spec fn pair_stable(d1: RuleDay, t1: int, d2: RuleDay, t2: int) -> bool {
+    &&& ((forall|y: int| rd_instant(d1, t1, y) <= #[trigger] rd_instant(d2, t2, y)) || (forall|y: int| rd_instant(d2, t2, y) <= #[trigger] rd_instant(d1, t1, y)))
+    &&& ((forall|y: int| #[trigger] rd_instant(d2, t2, y) <= rd_instant(d1, t1, y + 1)) || (forall|y: int| rd_instant(d1, t1, y + 1) <= #[trigger] rd_instant(d2, t2, y)))
+    &&& ((forall|y: int| #[trigger] rd_instant(d1, t1, y) <= rd_instant(d2, t2, y + 1)) || (forall|y: int| rd_instant(d2, t2, y + 1) <= #[trigger] rd_instant(d1, t1, y)))
+}
+
+// UTC day times that the constructor can produce: |time| < 7 d, offset in (-25 h, 26 h)
+spec fn day_time_ok(t: int) -> bool {
+    -698400 < t < 694800
+}
+
+// a Julian-day check record describes day d at UTC day time t: offsets of the instant from the start of a
+// common / leap year, and from the end of it (= start of the following year)
+spec fn jinfo_shape(i: JulianDayCheckInfos) -> bool {
+    &&& i.end_normal_year_offset == i.start_normal_year_offset - 365 * 86400
+    &&& i.end_leap_year_offset == i.start_leap_year_offset - 366 * 86400
+    &&& (i.start_leap_year_offset == i.start_normal_year_offset || i.start_leap_year_offset == i.start_normal_year_offset + 86400)
+    &&& -800000 < i.start_normal_year_offset < 366 * 86400 + 800000
+}
+
+spec fn jinfo_of(i: JulianDayCheckInfos, d: RuleDay, t: int) -> bool {
+    &&& jinfo_shape(i)
+    &&& forall|y: int| #[trigger] rd_instant(d, t, y) == dby(y) * 86400 + (if leap(y) { i.start_leap_year_offset as int } else { i.start_normal_year_offset as int })
+}
+
+// order stability of two Julian-notation days, in terms of the (common, leap) year classes; consecutive years
+// are (common, common), (common, leap) or (leap, common)
+spec fn jj_le_same(a: JulianDayCheckInfos, b: JulianDayCheckInfos) -> bool {
+    a.start_normal_year_offset <= b.start_normal_year_offset && a.start_leap_year_offset <= b.start_leap_year_offset
+}
+
+// a(y) <= b(y + 1) for all y
+spec fn jj_le_next(a: JulianDayCheckInfos, b: JulianDayCheckInfos) -> bool {
+    a.end_normal_year_offset <= b.start_normal_year_offset && a.end_normal_year_offset <= b.start_leap_year_offset && a.end_leap_year_offset <= b.start_normal_year_offset
+}
+
+// b(y + 1) <= a(y) for all y
+spec fn jj_ge_next(a: JulianDayCheckInfos, b: JulianDayCheckInfos) -> bool {
+    b.start_normal_year_offset <= a.end_normal_year_offset && b.start_leap_year_offset <= a.end_normal_year_offset && b.start_normal_year_offset <= a.end_leap_year_offset
+}
+
+spec fn jj_stable(i1: JulianDayCheckInfos, i2: JulianDayCheckInfos) -> bool {
+    &&& (jj_le_same(i1, i2) || jj_le_same(i2, i1))
+    &&& (jj_le_next(i2, i1) || jj_ge_next(i2, i1))
+    &&& (jj_le_next(i1, i2) || jj_ge_next(i1, i2))
+}
+
+// window of days of month m in which the w-th (w = 5: last) occurrence of any weekday falls
+spec fn mwd_window(m: int, w: int, lp: bool) -> (int, int) {
+    if w == 5 { (dim(m, lp) - 6, dim(m, lp)) } else { (7 * w - 6, 7 * w) }
+}
+
+// a Mm.w.d check record: the possible offsets (min, max over the weekday of January 1) of the instant from the
+// start / end of a common / leap year
+spec fn mwinfo_of(i: MonthWeekDayCheckInfos, m: MonthWeekDay, t: int) -> bool {
+    let wn = mwd_window(m.month as int, m.week as int, false);
+    let wl = mwd_window(m.month as int, m.week as int, true);
+    &&& i.start_normal_year_offset_range.0 == (cum(m.month as int, false) + wn.0 - 1) * 86400 + t
+    &&& i.start_normal_year_offset_range.1 == (cum(m.month as int, false) + wn.1 - 1) * 86400 + t
+    &&& i.start_leap_year_offset_range.0 == (cum(m.month as int, true) + wl.0 - 1) * 86400 + t
+    &&& i.start_leap_year_offset_range.1 == (cum(m.month as int, true) + wl.1 - 1) * 86400 + t
+    &&& i.end_normal_year_offset_range.0 == i.start_normal_year_offset_range.0 - 365 * 86400
+    &&& i.end_normal_year_offset_range.1 == i.start_normal_year_offset_range.1 - 365 * 86400
+    &&& i.end_leap_year_offset_range.0 == i.start_leap_year_offset_range.0 - 366 * 86400
+    &&& i.end_leap_year_offset_range.1 == i.start_leap_year_offset_range.1 - 366 * 86400
+}
+
+// decision procedure for a Mm.w.d day (record a) against a Julian-notation day (record b), as audited:
+// the Julian day must lie outside the Mm.w.d range in both year classes, and the order across the year boundary
+// must be the same for the three (common/leap) patterns of consecutive years
+spec fn mj_decision(a: MonthWeekDayCheckInfos, b: JulianDayCheckInfos) -> bool {
+    if b.start_normal_year_offset <= a.start_normal_year_offset_range.0 && b.start_leap_year_offset <= a.start_leap_year_offset_range.0 {
+        ||| (a.end_normal_year_offset_range.1 <= b.start_normal_year_offset && a.end_normal_year_offset_range.1 <= b.start_leap_year_offset && a.end_leap_year_offset_range.1 <= b.start_normal_year_offset)
+        ||| (b.start_normal_year_offset <= a.end_normal_year_offset_range.0 && b.start_leap_year_offset <= a.end_normal_year_offset_range.0 && b.start_normal_year_offset <= a.end_leap_year_offset_range.0)
+    } else if a.start_normal_year_offset_range.1 <= b.start_normal_year_offset && a.start_leap_year_offset_range.1 <= b.start_leap_year_offset {
+        ||| (b.end_normal_year_offset <= a.start_normal_year_offset_range.0 && b.end_normal_year_offset <= a.start_leap_year_offset_range.0 && b.end_leap_year_offset <= a.start_normal_year_offset_range.0)
+        ||| (a.start_normal_year_offset_range.1 <= b.end_normal_year_offset && a.start_leap_year_offset_range.1 <= b.end_normal_year_offset && a.start_normal_year_offset_range.1 <= b.end_leap_year_offset)
+    } else {
+        false
+    }
+}
+
+// decision procedure for two Mm.w.d days, as audited: possible range (in days) of "after - before" for the rule
+// days sorted by month/week; None: the days are a whole number of weeks apart in every year or more than 3 weeks apart
+spec fn mm_range(monb: int, wb: int, db: int, mona: int, wa: int, da: int) -> Option<(int, int)> {
+    let dm = dim(monb, false) % 7;
+    if db == da {
+        if monb == mona && wb <= 4 && wa == 5 {
+            Some((7 * (4 - wb), 7 * (5 - wb)))
+        } else if monb != mona && wb <= 4 && wa <= 4 {
+            Some((7 * (4 - wb + wa), 7 * (5 - wb + wa)))
+        } else {
+            None
+        }
+    } else {
+        let n = (da - db) % 7;
+        if monb == mona {
+            if wb == 5 && wa == 5 {
+                Some((n - 7, n))
+            } else if wb <= 4 && wa <= 4 {
+                Some((n + 7 * (wa - wb - 1), n + 7 * (wa - wb)))
+            } else if n < dm {
+                Some((n + 7 * (4 - wb), n + 7 * (5 - wb)))
+            } else if n == dm {
+                None
+            } else {
+                Some((n + 7 * (3 - wb), n + 7 * (4 - wb)))
+            }
+        } else if wb <= 4 && wa <= 4 {
+            if n < dm {
+                Some((n + 7 * (4 - wb + wa), n + 7 * (5 - wb + wa)))
+            } else if n == dm {
+                None
+            } else {
+                Some((n + 7 * (3 - wb + wa), n + 7 * (4 - wb + wa)))
+            }
+        } else if wb == 5 && wa <= 4 {
+            Some((n + 7 * (wa - 1), n + 7 * wa))
+        } else {
+            None
+        }
+    }
+}
+
+spec fn mm_sorted_decision(mb: MonthWeekDay, tb: int, ma: MonthWeekDay, ta: int) -> bool {
+    match mm_range(mb.month as int, mb.week as int, mb.week_day as int, ma.month as int, ma.week as int, ma.week_day as int) {
+        None => true,
+        Some(r) => tb <= r.0 * 86400 + ta || r.1 * 86400 + ta <= tb,
+    }
+}
+
+spec fn mm_decision(m1: MonthWeekDay, t1: int, m2: MonthWeekDay, t2: int) -> bool {
+    let rem = (m2.month as int - m1.month as int) % 12;
+    if rem == 0 {
+        if m1.week <= m2.week { mm_sorted_decision(m1, t1, m2, t2) } else { mm_sorted_decision(m2, t2, m1, t1) }
+    } else if rem == 1 {
+        mm_sorted_decision(m1, t1, m2, t2)
+    } else if rem == 11 {
+        mm_sorted_decision(m2, t2, m1, t1)
+    } else {
+        true
+    }
+}
